@@ -18,6 +18,7 @@ FN = ["step", "update", "limit", "mix"]
 
 def library(seed, modname, with_unused, leaf_only):
     g = Gen(seed, calls_focus=True)
+    g.tailcall_p = 0.45  # library functions handing over to a sibling of their module
     g.globals = ["total"]
     lines = ["from stationeers_pytrapic.symbols import *", "", "fur = Furnace(d2)", "sens = DaylightSensor(d3)", "heat = WallHeater(d1)", f"total = {g.r.choice([0, 1, 5])}"]
     made = []
@@ -63,6 +64,9 @@ def generate(seed, with_unused=True, leaf_only=False, collide=True, state_only=F
     if r.random() < 0.6:
         # equal function names in main and library collide under remove_labels (known finding C05-prefix-names)
         name = r.choice(FN) if collide else r.choice(["calc", "scale", "check"])
+        sib = [f[0] for m in mods for f in handles[mods.index(m)][1] if any(f"{f[0]}(" in l and not l.startswith("def ") for l in sources[m].split("\n"))]
+        if collide and sib and r.random() < 0.6:
+            name = r.choice(sib)  # the name of a library function that is called from inside its library
         body = g.function(name, 1, True, [])
         own.append((name, 1, True, True))
         main += body + [""]
@@ -71,7 +75,13 @@ def generate(seed, with_unused=True, leaf_only=False, collide=True, state_only=F
     vars_ = ["total"]
     body = []
     for h, made in handles:
+        text = sources[[m for m in mods if h in (m, m[:2] + "x")][0]]
         for f in made:
+            # a function that a sibling of its module already calls is not always called from the main file as well
+            # (it then has a single call site inside the library)
+            inner = any(f"{f[0]}(" in l and not l.startswith("def ") for l in text.split("\n"))
+            if inner and r.random() < 0.5:
+                continue
             args = ", ".join(g.arg(vars_, 1) for _ in range(f[1]))
             body.append(f"    db.Setting = {h}.{f[0]}({args})" if f[2] else f"    {h}.{f[0]}({args})")
             if r.random() < 0.5:
